@@ -29,7 +29,22 @@ sys.path.insert(0, VERIF)
 
 def load_variants():
     from tools import variants
-    return variants.VARIANTS
+    return variants.VARIANTS + load_seeded()
+
+
+def load_seeded():
+    """The seeded changes kept under /verif/seeded (written by independent sub-agents, see DESIGN 8.5) that a check
+    detects are regression variants too: the patch is applied to the scratch copy and the recorded check must report
+    the recorded obligation role.  Seeds no check detects (value-level changes, DESIGN 8.5) are not variants."""
+    import glob
+    out = []
+    for mf in sorted(glob.glob(os.path.join(VERIF, "seeded", "*", "meta.json"))):
+        with open(mf) as fh:
+            meta = json.load(fh)
+        for prop, role in sorted(meta.get("expect_roles", {}).items()):
+            out.append(dict(id="seed-%s-%s" % (meta["id"], prop), prop=prop, kind="seed", expect=role,
+                            patch=os.path.join(os.path.dirname(mf), "patch.diff")))
+    return out
 
 
 def run_variant(v):
@@ -38,23 +53,29 @@ def run_variant(v):
         dst = os.path.join(tmp, "pyformlang")
         shutil.copytree(os.path.join(REPO, "pyformlang"), dst,
                         ignore=shutil.ignore_patterns("tests", "__pycache__", "*.pyc"))
-        path = os.path.join(tmp, v["file"])
-        with open(path, encoding="utf-8") as fh:
-            src = fh.read()
-        if src.count(v["old"]) != 1:
-            return dict(v, status="skipped", why="anchor text occurs %d times" % src.count(v["old"]))
-        src = src.replace(v["old"], v["new"])
-        try:
-            compile(src, path, "exec")
-        except SyntaxError as exc:
-            return dict(v, status="bad-variant", why="does not compile: %s" % exc)
-        with open(path, "w", encoding="utf-8") as fh:
-            fh.write(src)
+        if v["kind"] == "seed":
+            pa = subprocess.run(["git", "apply", "--whitespace=nowarn", "--exclude=*/tests/*", v["patch"]], cwd=tmp,
+                                capture_output=True, text=True)
+            if pa.returncode != 0:
+                return dict(v, status="skipped", why="patch does not apply to the current tree")
+        else:
+            path = os.path.join(tmp, v["file"])
+            with open(path, encoding="utf-8") as fh:
+                src = fh.read()
+            if src.count(v["old"]) != 1:
+                return dict(v, status="skipped", why="anchor text occurs %d times" % src.count(v["old"]))
+            src = src.replace(v["old"], v["new"])
+            try:
+                compile(src, path, "exec")
+            except SyntaxError as exc:
+                return dict(v, status="bad-variant", why="does not compile: %s" % exc)
+            with open(path, "w", encoding="utf-8") as fh:
+                fh.write(src)
         env = dict(os.environ, VERIF_REPO=tmp, VERIF_EVIDENCE_DIR=os.path.join(tmp, "evidence"))
         p = subprocess.run([os.path.join(VERIF, "check"), v["prop"], "--tier", "quick", "--no-cache"], cwd=VERIF, env=env,
                            capture_output=True, text=True, timeout=900)
         out = p.stdout + p.stderr
-        if v["kind"] == "break":
+        if v["kind"] in ("break", "seed"):
             named = v.get("expect", "") in out
             ok = p.returncode == 1 and named
             why = "" if ok else "exit=%d, expected role %r %s" % (p.returncode, v.get("expect"), "named" if named else "not named")
